@@ -151,6 +151,15 @@ func buildTemplate(r *Run, prog *ssa.Program, pkg *ssa.Package, wk *workerCtx) *
 			}
 		}()
 		i.runInits(pkg)
+		if r.cfg.Setup != "" {
+			f := pkg.Func(r.cfg.Setup)
+			if f == nil {
+				panic(engineError{"set-up function not found: " + r.cfg.Setup})
+			}
+			i.inInit++
+			call(i, nil, 0, f, nil)
+			i.inInit--
+		}
 		t.ok = true
 	}()
 	// big vectors handed out to the template stay with it for ever
